@@ -11,6 +11,10 @@ package http2
 //@ pure func isConnErrDetail(err error, code int) bool = err.(connError) && unbox(connError, err).Code == code
 //@ pure func isStreamErr(err error, id int, code int) bool = err.(StreamError) && unbox(StreamError, err).StreamID == id && unbox(StreamError, err).Code == code
 
+//@ -- Frame is a sealed interface (unexported method); every implementation embeds FrameHeader and inherits Header().
+//@ pure func hdrOf(f Frame) FrameHeader = ite(isptr(DataFrame, f), val(unboxptr(DataFrame, f).FrameHeader), ite(isptr(HeadersFrame, f), val(unboxptr(HeadersFrame, f).FrameHeader), ite(isptr(PriorityFrame, f), val(unboxptr(PriorityFrame, f).FrameHeader), ite(isptr(RSTStreamFrame, f), val(unboxptr(RSTStreamFrame, f).FrameHeader), ite(isptr(SettingsFrame, f), val(unboxptr(SettingsFrame, f).FrameHeader), ite(isptr(PushPromiseFrame, f), val(unboxptr(PushPromiseFrame, f).FrameHeader), ite(isptr(PingFrame, f), val(unboxptr(PingFrame, f).FrameHeader), ite(isptr(GoAwayFrame, f), val(unboxptr(GoAwayFrame, f).FrameHeader), ite(isptr(WindowUpdateFrame, f), val(unboxptr(WindowUpdateFrame, f).FrameHeader), ite(isptr(ContinuationFrame, f), val(unboxptr(ContinuationFrame, f).FrameHeader), val(unboxptr(UnknownFrame, f).FrameHeader)))))))))))
+
+
 //@ func Flags.Has
 //@   inline
 
@@ -62,6 +66,8 @@ package http2
 //@ func parseDataFrame :: fc, fh, countError, payload -> f, err
 //@   props C19,C10
 //@   callback countError
+//@   ensures [C19:any-frame-header] err == nil ==> f != nil && hdrOf(f) == fh
+//@   ensures [C19:any-error-kind] err != nil ==> f == nil
 //@   assigns DataFrame.data, FrameHeader.valid, FrameHeader.Type, FrameHeader.Flags, FrameHeader.Length, FrameHeader.StreamID
 //@   ensures [C19:data-stream0] fh.StreamID == 0 ==> isConnErrDetail(err, 1)
 //@   ensures [C19:data-pad-byte-missing] fh.StreamID != 0 && flag(fh.Flags, 8) && len(payload) == 0 ==> err == io.ErrUnexpectedEOF
@@ -73,6 +79,8 @@ package http2
 //@ func parsePingFrame :: fc, fh, countError, payload -> f, err
 //@   props C19,C10
 //@   callback countError
+//@   ensures [C19:any-frame-header] err == nil ==> f != nil && hdrOf(f) == fh
+//@   ensures [C19:any-error-kind] err != nil ==> f == nil
 //@   assigns nothing
 //@   ensures [C19:ping-len] len(payload) != 8 ==> isConnErr(err, 6)
 //@   ensures [C19:ping-stream] len(payload) == 8 && fh.StreamID != 0 ==> isConnErr(err, 1)
@@ -82,6 +90,8 @@ package http2
 //@ func parseGoAwayFrame :: fc, fh, countError, p -> f, err
 //@   props C19,C10
 //@   callback countError
+//@   ensures [C19:any-frame-header] err == nil ==> f != nil && hdrOf(f) == fh
+//@   ensures [C19:any-error-kind] err != nil ==> f == nil
 //@   assigns nothing
 //@   ensures [C19:goaway-stream] fh.StreamID != 0 ==> isConnErr(err, 1)
 //@   ensures [C19:goaway-short] fh.StreamID == 0 && len(p) < 8 ==> isConnErr(err, 6)
@@ -91,12 +101,16 @@ package http2
 //@ func parseUnknownFrame :: fc, fh, countError, p -> f, err
 //@   props C19,C10
 //@   callback countError
+//@   ensures [C19:any-frame-header] err == nil ==> f != nil && hdrOf(f) == fh
+//@   ensures [C19:any-error-kind] err != nil ==> f == nil
 //@   assigns nothing
 //@   ensures [C19:unknown-kept] err == nil && isptr(UnknownFrame, f) && unboxptr(UnknownFrame, f) != nil && val(unboxptr(UnknownFrame, f).FrameHeader) == fh && unboxptr(UnknownFrame, f).p == p
 
 //@ func parseWindowUpdateFrame :: fc, fh, countError, p -> f, err
 //@   props C19,C10,C03
 //@   callback countError
+//@   ensures [C19:any-frame-header] err == nil ==> f != nil && hdrOf(f) == fh
+//@   ensures [C19:any-error-kind] err != nil ==> f == nil
 //@   assigns nothing
 //@   ensures [C19:wu-len] len(p) != 4 ==> isConnErr(err, 6)
 //@   ensures [C19:wu-zero-conn] len(p) == 4 && be32(p) % 2147483648 == 0 && fh.StreamID == 0 ==> isConnErr(err, 1)
@@ -108,6 +122,8 @@ package http2
 //@ func parsePriorityFrame :: fc, fh, countError, payload -> f, err
 //@   props C19,C10
 //@   callback countError
+//@   ensures [C19:any-frame-header] err == nil ==> f != nil && hdrOf(f) == fh
+//@   ensures [C19:any-error-kind] err != nil ==> f == nil
 //@   assigns nothing
 //@   ensures [C19:priority-stream0] fh.StreamID == 0 ==> isConnErrDetail(err, 1)
 //@   ensures [C19:priority-len] fh.StreamID != 0 && len(payload) != 5 ==> isConnErrDetail(err, 6)
@@ -117,6 +133,8 @@ package http2
 //@ func parseRSTStreamFrame :: fc, fh, countError, p -> f, err
 //@   props C19,C10
 //@   callback countError
+//@   ensures [C19:any-frame-header] err == nil ==> f != nil && hdrOf(f) == fh
+//@   ensures [C19:any-error-kind] err != nil ==> f == nil
 //@   assigns nothing
 //@   ensures [C19:rst-len] len(p) != 4 ==> isConnErr(err, 6)
 //@   ensures [C19:rst-stream0] len(p) == 4 && fh.StreamID == 0 ==> isConnErr(err, 1)
@@ -126,6 +144,8 @@ package http2
 //@ func parseContinuationFrame :: fc, fh, countError, p -> f, err
 //@   props C19,C10
 //@   callback countError
+//@   ensures [C19:any-frame-header] err == nil ==> f != nil && hdrOf(f) == fh
+//@   ensures [C19:any-error-kind] err != nil ==> f == nil
 //@   assigns nothing
 //@   ensures [C19:continuation-stream0] fh.StreamID == 0 ==> isConnErrDetail(err, 1)
 //@   ensures [C19:continuation-ok] fh.StreamID != 0 ==> err == nil && isptr(ContinuationFrame, f) && unboxptr(ContinuationFrame, f) != nil && val(unboxptr(ContinuationFrame, f).FrameHeader) == fh && unboxptr(ContinuationFrame, f).headerFragBuf == p
@@ -139,6 +159,9 @@ package http2
 //@ func parseHeadersFrame :: fc, fh, countError, p -> f, err
 //@   props C19,C10
 //@   callback countError
+//@   ensures [C19:any-frame-header] err == nil ==> f != nil && hdrOf(f) == fh
+//@   ensures [C19:any-headers-type] err == nil ==> isptr(HeadersFrame, f) && unboxptr(HeadersFrame, f) != nil
+//@   ensures [C19:any-error-kind] err != nil ==> f == nil
 //@   assigns nothing
 //@   ensures [C19:headers-stream0] fh.StreamID == 0 ==> isConnErrDetail(err, 1)
 //@   ensures [C19:headers-short] fh.StreamID != 0 && len(p) < hPad(fh) + hPrio(fh) ==> err == io.ErrUnexpectedEOF
@@ -151,6 +174,8 @@ package http2
 //@ func parsePushPromise :: fc, fh, countError, p -> f, err
 //@   props C19,C10
 //@   callback countError
+//@   ensures [C19:any-frame-header] err == nil ==> f != nil && hdrOf(f) == fh
+//@   ensures [C19:any-error-kind] err != nil ==> f == nil
 //@   assigns nothing
 //@   ensures [C19:pp-stream0] fh.StreamID == 0 ==> isConnErr(err, 1)
 //@   ensures [C19:pp-short] fh.StreamID != 0 && len(p) < hPad(fh) + 4 ==> err == io.ErrUnexpectedEOF
@@ -197,6 +222,8 @@ package http2
 //@ func parseSettingsFrame :: fc, fh, countError, p -> f, err
 //@   props C19,C10,C12
 //@   callback countError
+//@   ensures [C19:any-frame-header] err == nil ==> f != nil && hdrOf(f) == fh
+//@   ensures [C19:any-error-kind] err != nil ==> f == nil
 //@   requires fh.valid
 //@   assigns nothing
 //@   ensures [C19:settings-ack-len] flag(fh.Flags, 1) && fh.Length > 0 ==> isConnErr(err, 6)
@@ -216,9 +243,6 @@ package http2
 //@   ensures [C13:valid-otherwise] !(s.ID == 2 && s.Val != 0 && s.Val != 1) && !(s.ID == 4 && s.Val > 2147483647) && !(s.ID == 5 && (s.Val < 16384 || s.Val > 16777215)) && !(s.ID == 8 && s.Val != 0 && s.Val != 1) ==> err == nil
 
 //@ -- frame order (HEADERS / CONTINUATION contiguity) ----------------------------------------
-//@ -- Frame is a sealed interface (unexported method); every implementation embeds FrameHeader and inherits Header().
-//@ pure func hdrOf(f Frame) FrameHeader = ite(isptr(DataFrame, f), val(unboxptr(DataFrame, f).FrameHeader), ite(isptr(HeadersFrame, f), val(unboxptr(HeadersFrame, f).FrameHeader), ite(isptr(PriorityFrame, f), val(unboxptr(PriorityFrame, f).FrameHeader), ite(isptr(RSTStreamFrame, f), val(unboxptr(RSTStreamFrame, f).FrameHeader), ite(isptr(SettingsFrame, f), val(unboxptr(SettingsFrame, f).FrameHeader), ite(isptr(PushPromiseFrame, f), val(unboxptr(PushPromiseFrame, f).FrameHeader), ite(isptr(PingFrame, f), val(unboxptr(PingFrame, f).FrameHeader), ite(isptr(GoAwayFrame, f), val(unboxptr(GoAwayFrame, f).FrameHeader), ite(isptr(WindowUpdateFrame, f), val(unboxptr(WindowUpdateFrame, f).FrameHeader), ite(isptr(ContinuationFrame, f), val(unboxptr(ContinuationFrame, f).FrameHeader), val(unboxptr(UnknownFrame, f).FrameHeader)))))))))))
-
 //@ func Frame.Header :: f -> h
 //@   trusted
 //@   pure
